@@ -238,8 +238,45 @@ def run(ctx):
                 viol(f'bernoulli(p={wrap} callable): the callable returned 0.9 at the first call and 0.05 at the second; observed frequencies {f1:.3f} and {f2:.3f}', dict(wrap=wrap, f1=f1, f2=f2))
     except Exception as E:
         viol(f'bernoulli with a (time-wrapped) callable probability raised {type(E).__name__}: {E}', dict(probe='tp-callable'))
+    # ---------------------------------------------------------------- discrete choice (NumPy's cdf / searchsorted, modelled in L1_Choice)
+    cterms, cmeta, pterms, pmeta = [], [], [], []
+    for rep in range(ctx.n(6, 30)):
+        k = rng.randrange(2, 8); W = dict(family='choice', rep=rep)
+        try:
+            raw = [rng.choice([0.0, 0.5, 1.0, 2.0, 3.0, rng.random()]) for _ in range(k)]
+            if sum(raw) == 0: raw[rng.randrange(k)] = 1.0
+            pvec = np.array(raw) / sum(raw); avals = np.array(sorted(rng.sample(range(-50, 50), k)))
+            if rep % 3 == 2: avals = k      # a given as the number of options
+            W.update(p=[float(x) for x in pvec], a=(avals.tolist() if not np.isscalar(avals) else int(avals)))
+            seed = rng.randrange(1, 10**6)
+            d = ss.choice(a=avals, p=pvec); d.init(trace='c05_choice', seed=seed, sim=sim, force=True)
+            g = np.random.Generator(np.random.PCG64()); g.bit_generator.state = d.rng.bit_generator.state
+            slots = np.asarray(sim.people.slot.raw[uids]); u = g.random(int(slots.max()) + 1)[slots]
+            v = np.asarray(d.rvs(uids)); opts = np.arange(k) if np.isscalar(avals) else avals
+            ctx.count(('choice', rep), nontrivial=True); ctx.dist('choice/with p')
+            if not np.all(np.isin(v, opts)): viol(f'choice: variates outside the options {opts.tolist()}', W); continue
+            idxs = np.searchsorted(opts, v)
+            freq = np.bincount(idxs, minlength=k) / len(v); sd = np.sqrt(np.maximum(pvec * (1 - pvec), 1e-12) / len(v))
+            if np.any(np.abs(freq - pvec) > 6 * sd + 1e-9):
+                j = int(np.argmax(np.abs(freq - pvec) / (6 * sd + 1e-9)))
+                viol(f'choice(p={np.round(pvec, 4).tolist()}): option {j} was drawn with frequency {freq[j]:.4f} over {len(v)} agents (6 sigma = {6 * sd[j]:.4f})', dict(W, option=j, freq=float(freq[j])))
+            for j in rng.sample(range(len(uids)), 8):
+                cterms.append(f'([{"; ".join(qlit(float(x)) for x in pvec)}], {qlit(float(u[j]))}, {int(idxs[j])}%nat)'); cmeta.append(dict(W, agent=j, u=float(u[j]), drawn=int(v[j])))
+            # the quantile method of the class itself (searchsorted side='left' on the raw cumulative sums)
+            d._pars = sc.objdict(a=(np.arange(k) if np.isscalar(avals) else avals), p=pvec); uu = np.array([rng.random() for _ in range(6)])
+            pv = np.asarray(d.ppf(uu))
+            for j in range(len(uu)):
+                pterms.append(f'([{"; ".join(qlit(float(x)) for x in pvec)}], {qlit(float(uu[j]))}, {int(np.searchsorted(opts, pv[j]))}%nat)'); pmeta.append(dict(W, u=float(uu[j]), got=int(pv[j])))
+        except Exception as E:
+            viol(f'choice with probabilities raised {type(E).__name__}: {str(E)[:160]}', dict(W, error=repr(E)[:200]))
     # ---------------------------------------------------------------- Coq twins
-    ctx.cov['replayed_in_coq'] = dict(uniform=len(uterms), randint=len(rterms), bernoulli=len(bterms))
+    ctx.cov['replayed_in_coq'] = dict(uniform=len(uterms), randint=len(rterms), bernoulli=len(bterms), choice=len(cterms), choice_ppf=len(pterms))
+    CI = IMPORTS + ' Model.L1_Choice'
+    EPS = '(1 # 1000000000000)'
+    bad = ctx.coq_mismatches('c05choice', CI, 'list Q * Q * nat', cterms, f"Definition ok (c : list Q * Q * nat) : bool := let '(p, u, i) := c in Nat.eqb (choice_np_norm p u) i || Nat.eqb (choice_np_norm p (u - {EPS})) i || Nat.eqb (choice_np_norm p (u + {EPS})) i.", shard=300)
+    for j in bad[:3]: ctx.violation(f"choice(p={cmeta[j]['p']}): the agent whose uniform draw is {cmeta[j]['u']} received option value {cmeta[j]['drawn']}, not the option whose probability interval contains the draw (model L1_Choice.choice_np_norm)", dict(cmeta[j], probe='choice-interval'))
+    bad = ctx.coq_mismatches('c05chppf', CI, 'list Q * Q * nat', pterms, f"Definition ok (c : list Q * Q * nat) : bool := let '(p, u, i) := c in Nat.eqb (choice_ppf p u) i || Nat.eqb (choice_ppf p (u - {EPS})) i || Nat.eqb (choice_ppf p (u + {EPS})) i.", shard=300)
+    for j in bad[:3]: ctx.violation(f"choice.ppf(p={pmeta[j]['p']}) at {pmeta[j]['u']} returned option value {pmeta[j]['got']}, not the option whose probability interval contains it (model L1_Choice.choice_ppf)", dict(pmeta[j], probe='choice-ppf'))
     bad = ctx.coq_mismatches('c05unif', IMPORTS, 'Q * Q * Q * Q', uterms, 'Definition ok (c : Q * Q * Q * Q) : bool := let \'(u, lo, hi, v) := c in Qclose (1 # 100000) (uniform_ppf_q_gen u lo hi) v.', shard=300)
     for j in bad[:3]: ctx.broke('correspondence', 'uniform: a per-agent variate differs from uniform_ppf_q_gen on its uniform draw', repr(umeta[j]))
     bad = ctx.coq_mismatches('c05rint', IMPORTS, 'Q * Q * Q * Z', rterms, 'Definition ok (c : Q * Q * Q * Z) : bool := let \'(u, lo, hi, v) := c in Z.eqb (Qfloor (randint_ppf_q_gen u lo hi)) v.', shard=300)
